@@ -1,5 +1,6 @@
 """C20 - a truncated or xref-damaged file still gives up every object completely written."""
 import os
+import re
 from vcommon import Check
 
 c = Check("C20")
@@ -14,10 +15,42 @@ if h:
         c.tie_broken("harness c20 crashed", out[-2000:])
     c.absorb_harness()
     if drv and rc == 0:
-        rc, out = c.run("'%s' < cases.txt > model.obs" % drv, timeout=3000)
+        # K model processes: each gets every file (F lines) and every K-th prefix (C lines)
+        K = 6 if c.tier == "quick" else 8
+        shards = []
+        for i in range(K):
+            os.makedirs(os.path.join(c.work, "m%d" % i), exist_ok=True)
+            shards.append(open(os.path.join(c.work, "m%d" % i, "cases.txt"), "w"))
+        n = 0
+        for ln in open(os.path.join(c.work, "cases.txt"), errors="replace"):
+            if ln.split(" ", 2)[1:2] == ["F"]:
+                for f in shards:
+                    f.write(ln)
+            else:
+                shards[n % K].write(ln)
+                n += 1
+        for f in shards:
+            f.close()
+        script = ["for i in %s; do ( cd m$i && '%s' < cases.txt > model.obs ) & done" % (" ".join(str(i) for i in range(K)), drv),
+                  "fail=0; for j in $(jobs -p); do wait $j || fail=1; done; exit $fail"]
+        rc, out = c.run(["bash", "-c", "\n".join(script)], timeout=3000)
         if rc != 0:
             c.tie_broken("model driver C20 failed", out[-2000:])
         else:
+            differ, tame_line = 0, ""
+            with open(os.path.join(c.work, "model.obs"), "w") as mo, open(os.path.join(c.work, "ideal.txt"), "w") as io_:
+                for i in range(K):
+                    d = os.path.join(c.work, "m%d" % i)
+                    mo.write(open(os.path.join(d, "model.obs"), errors="replace").read())
+                    lines = open(os.path.join(d, "ideal.txt"), errors="replace").read().strip().split("\n")
+                    io_.write("\n".join(lines[:-1][:60]) + ("\n" if len(lines) > 1 else ""))
+                    m = re.match(r"windowed and ideal search differ on (\d+) cases; (.*)$", lines[-1])
+                    if m:
+                        differ += int(m.group(1))
+                        tame_line = m.group(2)
+                    os.remove(os.path.join(d, "cases.txt"))
+                    os.remove(os.path.join(d, "model.obs"))
+                io_.write("windowed and ideal search differ on %d cases; %s\n" % (differ, tame_line))
             mism = c.compare_obs(os.path.join(c.work, "impl.obs"), os.path.join(c.work, "model.obs"), "scan")
             if mism:
                 c.tie_broken(
